@@ -18,8 +18,12 @@ DefVals(ty) == IF ty = "bool" THEN {None, 1} ELSE {None, 1, 3}     \* a default 
 PrimNodes == {Prim(ty, r, d, None, <<IF ty = "bool" THEN UT("eq", 1, "u1") ELSE RecTest>>, <<>>) :
                 ty \in Types, r \in BOOLEAN, d \in {None, 1}}
            \cup {Prim(ty, r, 3, None, <<RecTest>>, <<>>) : ty \in Types \ {"bool"}, r \in BOOLEAN}
+           \* a Default that is itself the zero value is still a Default (it wins over Required and is tested)
+           \cup {Prim(ty, r, 0, None, <<IF ty = "bool" THEN UT("eq", 1, "u1") ELSE RecTest>>, <<>>) : ty \in Types, r \in BOOLEAN}
 SliceNodes == {Slice(Prim("int", FALSE, None, None, <<>>, <<>>), r, d, <<UT("min", 1, "u1")>>, <<>>) :
                  r \in BOOLEAN, d \in {None, 1}}
+              \* the elements of a default are validated like any others: here they fail their own test
+              \cup {Slice(Prim("int", FALSE, None, None, <<T("gte", 3, "gte")>>, <<>>), r, 2, <<>>, <<>>) : r \in BOOLEAN}
 PtrNodes   == {Ptr(Prim("int", r, None, None, <<RecTest>>, <<>>), nn) : r \in BOOLEAN, nn \in BOOLEAN}
 Nodes == PrimNodes \cup SliceNodes \cup PtrNodes
 
@@ -55,13 +59,15 @@ RowOK(pos, n, i, mode) ==
   /\ ~(pos = "ptr" /\ n.k = "ptr")
   /\ ~(pos = "elem" /\ mode = "validate" /\ n.k = "ptr" /\ FALSE)
 
-Rows == {q \in Positions \X Nodes \X (UNION {ParseIn(m) \cup ValueIn(m) : m \in Nodes}) \X {"parse", "validate"} :
+\* q[5] = 1: the Parse destination's pointers are already allocated (only where a pointer is involved)
+Rows == {q \in Positions \X Nodes \X (UNION {ParseIn(m) \cup ValueIn(m) : m \in Nodes}) \X {"parse", "validate"} \X {0, 1} :
            /\ q[3] \in (IF q[4] = "parse" THEN ParseIn(q[2]) ELSE ValueIn(q[2]))
-           /\ RowOK(q[1], q[2], q[3], q[4])}
+           /\ RowOK(q[1], q[2], q[3], q[4])
+           /\ (q[5] = 1 => (q[4] = "parse" /\ (q[2].k = "ptr" \/ q[1] = "ptr") /\ q[1] \in {"root", "field", "ptr"}))}
 
 CaseOfRow(q, id) ==
   LET pl == Place(q[1], q[2], q[3], q[4])
-  IN [id |-> id, mode |-> q[4], fe |-> "map", pre |-> 0, schema |-> pl.schema, input |-> pl.input]
+  IN [id |-> id, mode |-> q[4], fe |-> "map", pre |-> q[5], schema |-> pl.schema, input |-> pl.input]
 
 (***************************************************************************)
 (* The literal statement of C04, evaluated on the reference semantics.     *)
@@ -85,11 +91,8 @@ RowOKByStatement(q) ==
       \* behind a pointer (position "ptr") an absent input / nil pointer stops at the (optional) pointer
       reached == ~(q[1] = "ptr" /\ (IF mode = "parse" THEN i.t \in {"missing", "nil", "empty", "blank"} ELSE i.t = "nil"))
       nreq == Len(ReqIssuesAt(c, pl.ip, n))
-      \* the node's own destination before the node ran: fresh containers hold Go zero values
-      before == IF mode = "validate" THEN d0[pl.dp]
-                ELSE IF n.k = "slice" THEN -1
-                ELSE IF q[1] \in {"elem", "deep", "ptr"} \/ n.k = "ptr" THEN 0
-                ELSE InitVal(n.ty)
+      \* the node's own destination before the node ran: what the call started with, or the Go zero value of a fresh container
+      before == IF pl.dp \in DOMAIN d0 THEN d0[pl.dp] ELSE IF n.k = "slice" THEN -1 ELSE 0
   IN IF ~reached THEN RefIssuesOf(c) = <<>> /\ d1 = d0
      ELSE IF ~absent THEN nreq = 0
      ELSE IF n.def # None THEN nreq = 0 /\ d1[pl.dp] = (IF n.k = "slice" THEN n.def ELSE n.def)
